@@ -325,11 +325,11 @@ Definition stored_bytes (cfg : config) (ctx : cctx) (wcuts : list bytes) : N :=
 Lemma build_data_stored cfg ctx wcuts : wf_ctx ctx pw ->
   sumN (map len (build_data E compress cfg ctx wcuts)) = stored_bytes cfg ctx wcuts.
 Proof.
-  intros Hc. rewrite <- sum_len_sumN. unfold build_data, stored_bytes, iv_part, flat_sink. rewrite sum_len_app.
+  intros Hc. rewrite <- sum_len_sumN. unfold build_data, stored_bytes, iv_part. rewrite sum_len_app.
   f_equal.
   - destruct (encrypted cfg); [|reflexivity]. unfold sum_len. cbn [map fold_left].
     pose proof (iv_len E D verify D_len DE E_len ctx pw Hc) as L. unfold len. rewrite L. reflexivity.
-  - unfold sum_len. rewrite sum_len_concat, concat_filter_ne. reflexivity.
+  - unfold sum_len. rewrite sum_len_concat, flat_sink_concat. reflexivity.
 Qed.
 
 (* the row of a built entry: raw size = length of the content for a file, absent otherwise (directories and
